@@ -905,11 +905,9 @@ impl<'a> World<'a> {
             return;
         }
         let detail = format!("missing {:?} extra {:?} :: {}", missing, extra, detail_base);
-        // known: the variable is bound to an earlier literal with the same text as its name
-        if captured {
-            o.violation(format!("param-captured-by-literal{}", via), detail);
-            return;
-        }
+        // (fixed by 0ea0444: a variable bound to an earlier literal with the same text as its name; a
+        // recurrence is reported through the generic signatures below, with `captured` in the detail)
+        let detail = if captured { format!("[variable named like an earlier literal] {}", detail) } else { detail };
         // known: literal escapes are not decoded
         if let Some((name, alt_set)) = &alt {
             let m2: Vec<&String> = alt_set.iter().filter(|t| !got.contains(*t)).collect();
